@@ -205,6 +205,72 @@ def check(ctx, build=None):
                 stats["nesting_mismatches"] += 1
                 viol("C05: the nesting read from the emitted text is not the nesting of the Go source",
                      dict(c01.describe(files, mm["fn"], r["text"], mm), seed=seed), {"go": mm["go"]}, {"gooselang": mm["gl"]})
+            for av in r.get("arity_violations", []):
+                viol("C05: a call is printed so that it reads back with another number of arguments than the function takes",
+                     {"proto": "k4", "seed": seed, "function": av["inside"], "go_source": k4.func_source(files, av["inside"]), "emitted": k4.emitted_def(r["text"], av["inside"])},
+                     "%s applied to %s arguments" % (av["callee"], av["takes"]), av)
+        # ---- arguments that goose wraps in a conversion (a struct passed for an interface parameter): composite arguments keep their own brackets
+        isrc = """package p
+
+type Shape interface {
+	Area() uint64
+}
+
+type Square struct {
+	side uint64
+}
+
+type Holder struct {
+	sq Square
+}
+
+func (s Square) Area() uint64 {
+	return s.side * s.side
+}
+
+func mkSquare(n uint64) Square {
+	return Square{side: n}
+}
+
+func measure(s Shape) uint64 {
+	return s.Area()
+}
+
+func twice(s Shape, k uint64) uint64 {
+	return s.Area()*2 + k
+}
+
+func w0() uint64 {
+	return measure(mkSquare(3))
+}
+
+func w1() uint64 {
+	return measure(Square{side: 2}) + twice(mkSquare(1+1), 5)
+}
+
+func w2() uint64 {
+	h := Holder{sq: mkSquare(4)}
+	return measure(h.sq) + twice(h.sq, measure(mkSquare(1)))
+}
+
+func w3() uint64 {
+	var v Square = mkSquare(5)
+	return twice(v, 1) + measure(v)
+}
+"""
+        open(os.path.join(scratch, "iface.go"), "w").write(isrc)
+        ifiles, icalls = c01.witness_package(os.path.join(scratch, "iface.go"))
+        ir = k4.run_package(ifiles, icalls, os.path.join(scratch, "i"))
+        stats["interface_argument_functions"] = len(icalls)
+        if ir["parse_error"]:
+            viol("C05: interface-conversion arguments — the emitted file cannot be read back", {"proto": "c05-iface", "package": isrc}, "well-formed", ir["parse_error"])
+        for av in ir.get("arity_violations", []):
+            viol("C05: a call is printed so that it reads back with another number of arguments than the function takes",
+                 {"proto": "c05-iface", "package": isrc, "function": av["inside"], "emitted": k4.emitted_def(ir["text"], av["inside"])},
+                 "%s applied to %s arguments" % (av["callee"], av["takes"]), av)
+        for mm in ir["mismatches"]:
+            viol("C05: the nesting read from the emitted text is not the nesting of the Go source (argument passed for an interface parameter)",
+                 {"proto": "c05-iface", "package": isrc, "function": mm["fn"], "emitted": k4.emitted_def(ir["text"], mm["fn"])}, {"go": mm["go"]}, {"gooselang": mm["gl"]})
         # ---- flag invariance on subset packages (conversions, structs, methods, loops …)
         nf = 3 if ctx.tier == "quick" else 40
         for seed in range(ctx.seed * 9000 + 5000, ctx.seed * 9000 + 5000 + nf):
@@ -293,6 +359,8 @@ def check(ctx, build=None):
                     ctx.known("%s — %s (findings/C05/%s.go: %s)" % (key, known[key]["what"], key, bad[:120]))
                 else:
                     viol("C05: a witness program that is not a listed known finding is emitted malformed", {"proto": "c05-witness", "file": path}, "well-formed", bad)
+        # ---- re-translating over an older output file: the file is still the well-formed new translation
+        found = gomod.retranslate_stream(ctx, scratch, "C05: the output file is not the well-formed translation", found)
     finally:
         shutil.rmtree(scratch, ignore_errors=True)
     C.report_broken_obligations(ctx, build, found)
@@ -314,4 +382,8 @@ def check(ctx, build=None):
 
 
 def replay(ctx, path):
+    _inp = json.load(open(path)).get("input", {})
+    if isinstance(_inp, dict) and _inp.get("proto") == "retranslate":
+        C.ensure_built("C05", ["printer"], need_harness=False, extra_go=gomod.EXTRA_GO)
+        return gomod.replay_retranslate(_inp)
     return check(ctx)
